@@ -281,8 +281,12 @@ theorem C15_username_truncated (u : String) : (truncateUsername u).toList.length
   truncateUsername_length u
 
 /-- … and short user names are stored unchanged -/
-theorem C15_username_short_unchanged (u : String) (h : u.toList.length ≤ 30) : truncateUsername u = u :=
-  truncateUsername_of_short h
+theorem C15_username_short_unchanged (u : String) (h : u.toList.length ≤ 30) (hs : Spaceless u) : truncateUsername u = u :=
+  truncateUsername_of_short h hs
+
+/-- the stored user name never contains a space, whoever chose it (a services link can hand over a trailing
+parameter): it is cut at the first one (fix in /repo, found by the thorough run of this property) -/
+theorem C15_username_spaceless (u : String) : Spaceless (truncateUsername u) := truncateUsername_spaceless' u
 
 /-- the invariant, read off a stored session: at most 30 characters, hence at most 120 bytes -/
 theorem C15_username_bounded_stored (st : St) (h : UInv st) (sid : Id) (s : Session)
@@ -608,11 +612,25 @@ def longUser : String := String.ofList (List.replicate 600 'u')
 /-- a 600-character `USER` parameter is stored as 30 characters -/
 example : (truncateUsername longUser).toList.length = 30 ∧
     truncateUsername longUser = String.ofList (List.replicate 30 'u') := by
-  unfold truncateUsername takeChars longUser maxUserLen
+  have hs : Spaceless longUser := by
+    unfold longUser Spaceless
+    intro c hc
+    rw [String.toList_ofList] at hc
+    rw [List.eq_of_mem_replicate hc]; decide
+  unfold truncateUsername
+  rw [firstWord_of_spaceless hs]
+  unfold takeChars longUser maxUserLen
   simp only [String.toList_ofList, List.take_replicate, List.length_replicate]
   exact ⟨rfl, rfl⟩
 
-example : truncateUsername "alice" = "alice" := by decide
+example : truncateUsername "alice" = "alice" :=
+  truncateUsername_of_short (by decide) (by decide)
+
+/-- what a services link can hand over as the trailing parameter of a short NICK: cut at the first space -/
+example : truncateUsername "hello world" = "hello" := by
+  unfold truncateUsername
+  have : firstWord "hello world" = "hello" := by unfold firstWord; decide
+  rw [this]; decide
 
 theorem longUser_spaceless : Spaceless longUser := by
   unfold longUser
